@@ -57,6 +57,8 @@ def main():
                 return 2
             p = sh(["git", "-C", wt, "apply", patch])
             if p.returncode:
+                p = sh(["git", "-C", wt, "apply", "-3", patch])
+            if p.returncode:
                 print("patch does not apply:", p.stdout.decode())
                 return 2
             env["VERIF_REPO"] = wt
